@@ -216,6 +216,7 @@ type WEval struct {
 	elemNames  map[ssa.Value]string   // loop element loads -> "coll[i]"
 	allocEpoch map[*ssa.Alloc]int     // reader paths: named locals are printed as name#epoch
 	pathPhi    map[*ssa.Phi]ssa.Value // evaluation along one enumerated path: the incoming value chosen at each merge
+	parentEval *WEval                 // for a function literal: the evaluator of the function that creates it
 	argLay     map[ssa.Value]*Lay     // byte-slice parameters of an evaluated callee: the caller's layout of the argument
 	pathBlocks map[*ssa.BasicBlock]bool // evaluation along one enumerated path: the blocks on it (writes elsewhere did not happen)
 	splitPhi   *ssa.Phi               // set when a merged value had to be printed inside a term (see evalFuncResult)
@@ -250,6 +251,16 @@ func (w *WEval) term(v ssa.Value) string {
 		return w.term(x.X) + "." + fieldName(x.X.Type(), x.Field)
 	case *ssa.UnOp:
 		if x.Op == token.MUL {
+			if al, ok := x.X.(*ssa.Alloc); ok {
+				if v, ok := cellValue(al); ok {
+					return w.term(v) // a local captured by a function literal: the value it was given
+				}
+			}
+			if fv, ok := x.X.(*ssa.FreeVar); ok {
+				if v, ok := cellValue(freeVarCell(fv)); ok && w.parentEval != nil {
+					return w.parentEval.term(v)
+				}
+			}
 			if al, ok := x.X.(*ssa.Alloc); ok && w.allocEpoch != nil && al.Comment != "" {
 				return fmt.Sprintf("%s#%d", al.Comment, w.allocEpoch[al])
 			}
